@@ -1,6 +1,7 @@
 package main
 
 import (
+	"math/big"
 	"math/rand"
 	"strconv"
 
@@ -227,6 +228,22 @@ func c10PointerFor(r *rand.Rand, doc any) []string {
 			case 1:
 				toks = append(toks, strconv.Itoa(len(x)+r.Intn(2)))
 				cur = nil
+			case 2, 3: // all-digit tokens beyond the machine word: never an element, never a panic
+				var t string
+				switch r.Intn(6) {
+				case 0, 1, 2: // 2^64 + k wraps to the existing index k in 64-bit arithmetic
+					z := new(big.Int).Lsh(big.NewInt(1), 64)
+					t = z.Add(z, big.NewInt(int64(r.Intn(len(x)+1)))).String()
+				case 3:
+					t = "9223372036854775808" // 2^63 wraps negative
+				case 4:
+					t = []string{"9223372036854775807", "1000000000000000000", "99999999999999999999999"}[r.Intn(3)]
+				default: // k * 2^64 + j
+					z := new(big.Int).Lsh(big.NewInt(int64(2+r.Intn(5))), 64)
+					t = z.Add(z, big.NewInt(int64(r.Intn(len(x)+1)))).String()
+				}
+				toks = append(toks, t)
+				cur = nil
 			default:
 				if len(x) == 0 {
 					toks = append(toks, "0")
@@ -270,7 +287,7 @@ func c10EnumString(i int) string {
 func init() {
 	register(&Prop{
 		ID:   "C10",
-		Rule: "kinds: print (random token sequences over {/,~,0,1,a,é,世,empty}), parse (exhaustive strings over {/,~,0,1,a} in length-lex order, then random incl. multi-byte), eval (generated documents x pointers aimed at existing locations, neighbours, non-numeric/negative/non-canonical tokens on lists), parent. Non-trivial: token/string contains '~' or '/', pointer has >= 2 tokens. Distinct by Gallina term.",
+		Rule: "kinds: print (random token sequences over {/,~,0,1,a,é,世,empty}), parse (exhaustive strings over {/,~,0,1,a} in length-lex order, then random incl. multi-byte), eval (generated documents x pointers aimed at existing locations, neighbours, non-numeric/negative/non-canonical tokens and all-digit tokens beyond 2^63 and 2^64 (which wrap to existing indexes in machine arithmetic) on lists), parent. Non-trivial: token/string contains '~' or '/', pointer has >= 2 tokens. Distinct by Gallina term.",
 		Corpus: func() []Case {
 			return []Case{
 				c10Eval(map[string]any{"a": []any{1, 2}}, []string{"a", "x", "0"}), // skip of non-numeric token
